@@ -1,4 +1,29 @@
 """Root-cause exclusion predicates for defects listed in /verif/known_findings.json.
 Each is conjoined (negated) to the pre-condition of the affected conditions so that the
 solver keeps searching the rest of the bound.  They run under CrossHair tracing on symbolic
-values, so they only use comparisons.  Listed verbatim in evidence via the pre: lines."""
+values, so they only use comparisons.  Listed verbatim in evidence via the pre: lines.
+With VF_NO_EXCLUSIONS=1 (set by the runner when it replays the listed witnesses) every
+predicate is False, so the witness shows the defect itself."""
+import os
+
+ENABLED = os.environ.get("VF_NO_EXCLUSIONS", "0") != "1"
+
+
+
+def c01_pos_past_truncated_escape(s, pos) -> bool:
+    """KF C01-escape-position: a quoted string cut inside an escape sequence ('...\\' or
+    '...\\uX' at end of input) reports position len(s)+1.  tests/test_lang/test_lexer.py pins
+    these positions, so the lexer cannot be repaired; rendering was repaired (fixed entry)."""
+    if not ENABLED:
+        return False
+    n = len(s)
+    if pos != n + 1 or n == 0:
+        return False
+    if s[n - 1] == "\\":
+        return True
+    k = n - 1
+    cnt = 0
+    while k >= 0 and cnt < 4 and s[k] != "u":
+        k -= 1
+        cnt += 1
+    return k >= 1 and s[k] == "u" and s[k - 1] == "\\"
